@@ -12,7 +12,8 @@ def register(PROPS):
                  'included into the driver) equal the calendar value, hence each other; echs_instant_lt_p/le_p/eq_p agree with the '
                  'reference order in which an all-day instant precedes every time of its day and a whole-second instant precedes every '
                  'millisecond of its second.  Day level: complete for diff and order (all ordered pairs of days, thorough); add is complete '
-                 'for |delta| <= 1500 days and strided beyond (see bound).',
+                 'for |delta| <= 1500 days and strided beyond (see bound).  What the daemon is really armed for: in the embedded echsd (engine E2, harness/daemon) a one-shot task is queued for every day of 2020..2040 (thorough: 1971..2099), '
+                 'once as a DATE and once at a second of the day that moves with the date, and libev\'s armed time is read back: it must be that very second (own civil arithmetic), for the DATE a second of that day.',
         'note': 'The millisecond level is structured, not complete: 7 times of day (+4 whole-second, + all-day) on both sides of every '
                 'month boundary and leap day.  The inverse clauses add(a,diff(b,a))=b and diff(add(a,d),a)=d follow from the two '
                 'calendar clauses and are reported through them; diff-of-add is additionally judged on its own where add was right.  '
@@ -41,6 +42,7 @@ def register(PROPS):
             D('c08_instant', ['mode=fixup'], label='fixup'),
             D('c08_instant', ['mode=epoch', 'secs=3'], ['mode=epoch', 'secs=all', '--deadline', '540'], label='epoch'),
             D('c08_tstamp', ['secs=5'], ['secs=all', '--deadline', '540'], label='tstamp'),
+            D('e2_explore', ['prop=C08', 'mode=arm', 't0=0', 'y0=2020', 'y1=2040', '--case-timeout', '120'], ['prop=C08', 'mode=arm', 't0=0', '--case-timeout', '300'], label='daemon-arms'),
             D('c08_instant', ['mode=intraday', 'span=2'], label='intraday-asan', variant='asan', shards=4),
             D('c08_instant', ['mode=durs'], label='durs-asan', variant='asan', shards=4),
             D('c08_tstamp', ['secs=5'], label='tstamp-asan', variant='asan', shards=4),
